@@ -523,6 +523,14 @@ def gen_cases(rng, tier, budget):
               "S 1 s7:7:i A,0,5 H,I T,7,0,5:1500000:2:2:2 U H,- T,7,0,e X,0,e"]
     cases += ["S 1 s7:7:i A,0,5 H,I T,7,0,5:100:1:1:1 X,0,e U H,- B P,1", "S 1 s7:7:i A,0,5 H,I T,7,1,5:100:1:1:1 X,0,e U H,- B X,0,e",
               "S 1 s7:7:i A,0,5 H,I T,7,0,5:100:1:1:1 X,0,5:300:3:3:3 U", "S 1 s7:7:i A,0,5 H,I T,7,0,5:100:1:1:1 X,0,e A,0,6 U H,- T,7,0,6:5:5:5:5"]
+    # the checkpoint write of a processed response is still on its way (H,IW: held before the store) when the session is
+    # released; UW lets it land after the releaser's delete
+    for ok in (0, 1):
+        for typ in "ipg":
+            for tail in ("", " H,- B P,1", " H,- B X,0,e", " H,- B R,0,5,5 T,7,0,5:200:2:2:2 X,0,e"):
+                cases.append("S 1 s7:7:%s A,0,5,6 H,I T,7,%d,5:100:1:1:1|5:100:1+6:50:1 H,IW U X,0,e UW%s" % (typ, ok, tail))
+    cases.append("S 1 s7:7:i A,0,5 H,I T,7,0,5:100:1:1:1 H,IW U UW X,0,e")
+    cases.append("S 2 s7:7:i s10:7:p A,0,5 A,1,6 H,I T,7,2,5:100:1:1:1+6:7:7:7:7 H,IW U X,0,e X,1,e UW H,- B P,1")
     for i in range(220 if tier == "quick" else 3500):
         cases.append(gen_inflight(rng))
     # wire part
